@@ -47,6 +47,11 @@ def run(ctx):
     ctx.rule('C11.g-one-locator-evaluation', 'the erasure locator every decoder derives from the bitmap is evaluated by the one shared eval_poly, whatever engine is used (clause shared with C03.d)')
     from . import c03
     ctx.guard('C11.analysable', ctx.shared, {'C03.d-one-eval-poly': 'C11.g-one-locator-evaluation'}, c03.eval_poly, ctx, ctx.facts(cfgs[0]), cfgs[0])
+    ctx.rule('C11.o-handed-over-work-reconfigured', 'a working space taken over from another decoder is laid out for the configuration in use before anything is stored: positions the adds write and the decoder reads are those of this layout (clause shared with C05.e)')
+    ctx.guard('C11.analysable', ctx.shared, {'C05.e-handover-through-reset': 'C11.o-handed-over-work-reconfigured'}, c05.handover_rule, ctx, ctx.facts(cfgs[0]), cfgs[0])
+    ctx.rule('C11.n-rejected-add-leaves-no-trace', 'an add that is rejected marks nothing and stores nothing: what a later decode restores depends on the shards accepted, not on attempts (clause shared with C07.atomic)')
+    from . import c07 as c07_
+    ctx.guard('C11.analysable', ctx.shared, {'C07.atomic': 'C11.n-rejected-add-leaves-no-trace'}, c07_.check_cfg, ctx, ctx.facts(cfgs[0]), cfgs[0])
     ctx.rule('C11.m-no-history-lengths', 'nothing a decode reads depends on how large the object has ever been (lengths of grow-only containers): otherwise positions beyond the current configuration count as erasures and an exact set restores something else than a superset (clause shared with C05.h)')
     ctx.guard('C11.analysable', ctx.shared, {'C05.h-grow-only-lengths': 'C11.m-no-history-lengths'}, c05.grow_only_lengths, ctx, ctx.facts(cfgs[0]), cfgs[0])
     ctx.rule('C11.l-engines-run-one-schedule', 'the truncated transforms, whose truncation depends on which shards were given, are the reference schedule in every engine: a surplus shard or a different set does not change the result on one engine only (clause shared with C03.a)')
@@ -76,9 +81,11 @@ def add_effects(ctx, facts, cfg):
         if fn is None:
             continue
         p = fn.path
-        body = fn.body
+        # validation and storing may live in private helpers of the work type (`add_shard(kind, ..)`): analysed in place
+        fn_i = core.inlined_fn(facts, p, core.self_helper(WORK))
+        body = fn_i.body
         N = lambda c: RL.norm(core.strip_var_ids(c), p)
-        ws = resetrules.write_sites(facts, p)
+        ws = resetrules.write_sites(facts, fn_i.path)
         problems = []
         store = [w for w in ws if ftypes.get(w[0], '') == RL.store_adt]
         bits = [w for w in ws if 'FixedBitSet' in ftypes.get(w[0], '')]
